@@ -141,6 +141,24 @@ theorem unionCover_has {β : Type} (srcs : List (Op β)) (hs : ∀ o ∈ srcs, o
       | head => exact Or.inl (includePyramid_has hf (hs o (by simp)) h1 c (Or.inr hin))
       | tail _ ho' => exact Or.inr ⟨o', ho', hin⟩
 
+/-- `Covers` restricted to coordinates of the pyramid (`from_debug` answers *every* coordinate,
+    also `x ≥ 2^z`, which no pyramid can contain) -/
+def CoversV {β : Type} (s : Src β) : Prop :=
+  ∀ c p, Coord.Valid c → s.lookup c = .ok (some p) → Pyramid.has s.cover c = true
+
+theorem Covers.toV {β : Type} {s : Src β} (h : Covers s) : CoversV s := fun c p _ hl => h c p hl
+
+theorem newFull31_has (c : Coord) (hv : Coord.Valid c) : Pyramid.has (Pyramid.newFull 31) c = true := by
+  obtain ⟨x, y, z⟩ := c
+  have hz : z < 32 := by have := hv.1; simp at this; omega
+  have hx : x < 2 ^ z := hv.2.1
+  have hy : y < 2 ^ z := hv.2.2
+  unfold Pyramid.has Pyramid.containsCoord
+  simp only [Pyramid.newFull, Pyramid.levels, List.getElem?_map, List.getElem?_range hz, Option.map_some]
+  rw [if_pos (by omega)]
+  simp [BBox.contains3, BBox.contains2]
+  omega
+
 /-! ### the combinators -/
 
 theorem filter_covers {β : Type} (pyr : Pyramid) (s : Src β) : Covers (filterSrc pyr s) := by
@@ -220,11 +238,85 @@ theorem merged_covers {β : Type} (ops : Ops β) (cover : Pyramid) (srcs : List 
   | err => rw [hm] at h; cases h
   | panic => rw [hm] at h; cases h
 
+theorem overlay_coversV {β : Type} (ops : Ops β) (out : Nat) (cover : Pyramid) (srcs : List (Op β))
+    (hs : ∀ o ∈ srcs, CoversV o.src)
+    (hu : ∀ o ∈ srcs, ∀ c, Pyramid.has o.src.cover c = true → Pyramid.has cover c = true) :
+    CoversV (overlaySrc ops out cover srcs) := by
+  intro c p hv h
+  simp only [overlaySrc] at h ⊢
+  induction srcs with
+  | nil => simp [overlayLookup] at h
+  | cons o os ih =>
+    simp only [overlayLookup] at h
+    cases hl : o.src.lookup c with
+    | ok r =>
+      cases r with
+      | some v => exact hu o (by simp) c (hs o (by simp) c v hv hl)
+      | none =>
+        rw [hl] at h
+        exact ih (fun x hx => hs x (by simp [hx])) (fun x hx => hu x (by simp [hx])) h
+    | err => rw [hl] at h; cases h
+    | panic => rw [hl] at h; cases h
+
+theorem merged_coversV {β : Type} (ops : Ops β) (cover : Pyramid) (srcs : List (Op β))
+    (hs : ∀ o ∈ srcs, CoversV o.src)
+    (hu : ∀ o ∈ srcs, ∀ c, Pyramid.has o.src.cover c = true → Pyramid.has cover c = true) :
+    CoversV (mergedSrc ops cover srcs) := by
+  intro c p hv h
+  simp only [mergedSrc, mergedLookup] at h ⊢
+  have key : ∀ (l : List (Op β)) (bl : List β), (∀ o ∈ l, CoversV o.src) →
+      (∀ o ∈ l, ∀ c, Pyramid.has o.src.cover c = true → Pyramid.has cover c = true) →
+      mergedBlobs ops l c = .ok bl → bl ≠ [] → Pyramid.has cover c = true := by
+    intro l
+    induction l with
+    | nil => intro bl _ _ hb hne; simp [mergedBlobs] at hb; subst hb; exact absurd rfl hne
+    | cons o os ih =>
+      intro bl hs' hu' hb hne
+      simp only [mergedBlobs] at hb
+      cases hl : o.src.lookup c with
+      | ok r =>
+        rw [hl] at hb
+        cases hm : mergedBlobs ops os c with
+        | ok rest =>
+          rw [hm] at hb
+          cases r with
+          | some v => exact hu' o (by simp) c (hs' o (by simp) c v hv hl)
+          | none =>
+            simp only [Outcome.ok.injEq] at hb
+            subst hb
+            exact ih rest (fun x hx => hs' x (by simp [hx])) (fun x hx => hu' x (by simp [hx])) hm hne
+        | err => rw [hm] at hb; cases hb
+        | panic => rw [hm] at hb; cases hb
+      | err => rw [hl] at hb; cases hb
+      | panic => rw [hl] at hb; cases hb
+  cases hm : mergedBlobs ops srcs c with
+  | ok bl =>
+    cases bl with
+    | nil => rw [hm] at h; cases h
+    | cons b bs => exact key srcs (b :: bs) hs hu hm (by simp)
+  | err => rw [hm] at h; cases h
+  | panic => rw [hm] at h; cases h
+
+theorem map_coversV {β : Type} (f : β → β) (s : Src β) (hs : CoversV s) : CoversV (mapSrc f s) := by
+  intro c p hv h
+  simp only [mapSrc] at h ⊢
+  cases hl : s.lookup c with
+  | ok o =>
+    cases o with
+    | none => rw [hl] at h; cases h
+    | some v => exact hs c v hv hl
+  | err => rw [hl] at h; cases h
+  | panic => rw [hl] at h; cases h
+
+theorem debug_coversV {β : Type} (ops : Ops β) (fmt : Nat) : CoversV (debugOp ops fmt).src := by
+  intro c _ hv _
+  exact newFull31_has c hv
+
 /-! ### one construction step -/
 
 /-- what the induction carries: a good source (C02; gives the well-formed coverage) that covers
     its tiles (C03) -/
-def GC {β : Type} (s : Src β) : Prop := Good s ∧ Covers s
+def GC {β : Type} (s : Src β) : Prop := Good s ∧ CoversV s
 
 theorem buildZoom_gc {β : Type} {zmin zmax : Option Nat} {o o' : Op β} (ho : GC o.src)
     (h : buildZoom zmin zmax o = .ok o') : GC o'.src := by
@@ -232,7 +324,7 @@ theorem buildZoom_gc {β : Type} {zmin zmax : Option Nat} {o o' : Op β} (ho : G
   unfold buildZoom at h
   split at h
   · cases h
-  · cases h; exact filter_covers _ _
+  · cases h; exact Covers.toV (filter_covers _ _)
 
 theorem buildBBox_gc {β : Type} {q : Outcome Pyramid} {o o' : Op β} (ho : GC o.src)
     (h : buildBBox q o = .ok o') : GC o'.src := by
@@ -242,7 +334,7 @@ theorem buildBBox_gc {β : Type} {q : Outcome Pyramid} {o o' : Op β} (ho : GC o
   · cases h
   · cases h
   · split at h
-    · cases h; exact filter_covers _ _
+    · cases h; exact Covers.toV (filter_covers _ _)
     · cases h
 
 theorem buildUpdate_gc {β : Type} {ops : Ops β} {o o' : Op β} (ho : GC o.src)
@@ -251,7 +343,7 @@ theorem buildUpdate_gc {β : Type} {ops : Ops β} {o o' : Op β} (ho : GC o.src)
   unfold buildUpdate at h
   split at h
   · cases h
-  · cases h; exact map_covers _ _ ho.2
+  · cases h; exact map_coversV _ _ ho.2
 
 theorem buildOverlay_gc {β : Type} {ops : Ops β} {srcs : List (Op β)} {o' : Op β}
     (hs : ∀ o ∈ srcs, GC o.src) (h : buildOverlay ops srcs = .ok o') : GC o'.src := by
@@ -266,7 +358,7 @@ theorem buildOverlay_gc {β : Type} {ops : Ops β} {srcs : List (Op β)} {o' : O
     · split at h
       · rename_i cover hc
         cases h
-        apply overlay_covers _ _ _ _ (fun o ho => (hs o ho).2)
+        apply overlay_coversV _ _ _ _ (fun o ho => (hs o ho).2)
         intro o ho c hin
         exact unionCover_has _ (fun o ho => (hs o ho).1.cover_wf) _ _ (hs first (by simp)).1.cover_wf hc c
           (Or.inr ⟨o, ho, hin⟩)
@@ -285,7 +377,7 @@ theorem buildMerged_gc {β : Type} {ops : Ops β} {srcs : List (Op β)} {o' : Op
     · split at h
       · rename_i cover hc
         cases h
-        apply merged_covers _ _ _ (fun o ho => (hs o ho).2)
+        apply merged_coversV _ _ _ (fun o ho => (hs o ho).2)
         intro o ho c hin
         exact unionCover_has _ (fun o ho => (hs o ho).1.cover_wf) _ _ (hs first (by simp)).1.cover_wf hc c
           (Or.inr ⟨o, ho, hin⟩)
@@ -296,49 +388,53 @@ theorem buildMerged_gc {β : Type} {ops : Ops β} {srcs : List (Op β)} {o' : Op
 mutual
 theorem build_gc {β : Type} (ops : Ops β) (env : Nat → Outcome (Op β))
     (henv : ∀ i o, env i = .ok o → GC o.src) :
-    ∀ (p : Pipe) (o : Op β), build ops env p = .ok o → GC o.src
-  | .leaf i, o, h => henv i o (by simpa only [build] using h)
-  | .filterZoom zmin zmax p, o, h => by
+    ∀ (p : Pipe), p.DebugOK → ∀ (o : Op β), build ops env p = .ok o → GC o.src
+  | .leaf i, _, o, h => henv i o (by simpa only [build] using h)
+  | .debug fmt, hd, o, h => by
+    simp only [build] at h
+    cases h
+    exact ⟨debug_good ops hd, debug_coversV ops fmt⟩
+  | .filterZoom zmin zmax p, hd, o, h => by
     simp only [build] at h
     split at h
     · rename_i o1 h1
-      exact buildZoom_gc (build_gc ops env henv p o1 h1) h
+      exact buildZoom_gc (build_gc ops env henv p hd o1 h1) h
     · exact False.elim (‹∀ (o : Op β), build ops env p = Outcome.ok o → False› o h)
-  | .filterBBox q p, o, h => by
+  | .filterBBox q p, hd, o, h => by
     simp only [build] at h
     split at h
     · rename_i o1 h1
-      exact buildBBox_gc (build_gc ops env henv p o1 h1) h
+      exact buildBBox_gc (build_gc ops env henv p hd o1 h1) h
     · exact False.elim (‹∀ (o : Op β), build ops env p = Outcome.ok o → False› o h)
-  | .update p, o, h => by
+  | .update p, hd, o, h => by
     simp only [build] at h
     split at h
     · rename_i o1 h1
-      exact buildUpdate_gc (build_gc ops env henv p o1 h1) h
+      exact buildUpdate_gc (build_gc ops env henv p hd o1 h1) h
     · exact False.elim (‹∀ (o : Op β), build ops env p = Outcome.ok o → False› o h)
-  | .overlay ps, o, h => by
+  | .overlay ps, hd, o, h => by
     simp only [build] at h
     split at h
     · rename_i srcs hs
-      exact buildOverlay_gc (buildAll_gc ops env henv ps srcs hs) h
+      exact buildOverlay_gc (buildAll_gc ops env henv ps hd srcs hs) h
     · cases h
     · cases h
-  | .merged ps, o, h => by
+  | .merged ps, hd, o, h => by
     simp only [build] at h
     split at h
     · rename_i srcs hs
-      exact buildMerged_gc (buildAll_gc ops env henv ps srcs hs) h
+      exact buildMerged_gc (buildAll_gc ops env henv ps hd srcs hs) h
     · cases h
     · cases h
 theorem buildAll_gc {β : Type} (ops : Ops β) (env : Nat → Outcome (Op β))
     (henv : ∀ i o, env i = .ok o → GC o.src) :
-    ∀ (ps : Pipes) (os : List (Op β)), buildAll ops env ps = .ok os → ∀ o ∈ os, GC o.src
-  | .nil, os, h => by
+    ∀ (ps : Pipes), ps.DebugOK → ∀ (os : List (Op β)), buildAll ops env ps = .ok os → ∀ o ∈ os, GC o.src
+  | .nil, _, os, h => by
     simp only [buildAll] at h
     cases h
     intro o ho
     exact absurd ho List.not_mem_nil
-  | .cons p ps, os, h => by
+  | .cons p ps, hd, os, h => by
     simp only [buildAll] at h
     split at h
     · rename_i o1 h1
@@ -347,8 +443,8 @@ theorem buildAll_gc {β : Type} (ops : Ops β) (env : Nat → Outcome (Op β))
         cases h
         intro o ho
         rcases List.mem_cons.mp ho with rfl | ho'
-        · exact build_gc ops env henv p _ h1
-        · exact buildAll_gc ops env henv ps os1 h2 o ho'
+        · exact build_gc ops env henv p hd.1 _ h1
+        · exact buildAll_gc ops env henv ps hd.2 os1 h2 o ho'
       · cases h
       · cases h
     · cases h
